@@ -110,7 +110,11 @@ class World(object):
         self.template = os.path.join(self.base, "template")
         self.root = os.path.join(self.base, "run")
         os.makedirs(self.template)
-        fn = probe.Probe(kind, name="gprobe")
+        # the swept function seeds the global random generator at every call (a "reproducible" simulation does): whatever
+        # the growers draw from it afterwards is the same in every grower
+        ctl = os.path.join(self.base, "ctl.json")
+        probe.write_ctl(ctl, seed_random=4242)
+        fn = probe.Probe(kind, name="gprobe", ctl=ctl)
         with quiet():
             crop = xyzpy.Crop(fn=fn, name=NAME, parent_dir=self.template, batchsize=self.bs)
             crop.sow_combos({"a": list(range(1, self.n + 1))}, verbosity=0)
